@@ -33,17 +33,19 @@ Section Oracles.
   (* every redirection on every node of an approved program (simple command, group, subshell,
      loop, conditional, function body, [[ ]], (( )) - any node kind, any depth): if it needs a
      rule, the last matching redirect rule for its target, looked up in the directory the node
-     runs in, is an allow *)
+     runs in, is an allow - and the target is the file's name as written: it holds no character that
+     bash still rewrites (an expansion such as sub/$x/../f, a glob, a brace), so the file matched is the file opened *)
   Theorem C02_redirects : forall c t, walk c t = Allow ->
     forall n r, In (RRedir, r) (reach_fuel n RNode t) -> is_kind "heredoc" r = false ->
     exists c', snd c' = snd c /\
       (snd c' = false ->
        forall file, redirect_check (attr_d "op" r) (target_raw r) (target_val r) = Some file ->
-       mredir (fst c') file = Some Allow).
+       mredir (fst c') file = Some Allow /\ has_rewritten file = false).
   Proof. exact (approved_redirects simple astr mredir cdres injrisk rulematch). Qed.
 
   (* "granted" means: a rule matched and the deciding one allows; no matching rule is an ask *)
-  Theorem C02_granted_def : forall cwd tgt, redirect_rule mredir cwd tgt = Allow <-> mredir cwd tgt = Some Allow.
+  Theorem C02_granted_def : forall cwd tgt,
+    redirect_rule mredir cwd tgt = Allow <-> mredir cwd tgt = Some Allow /\ has_rewritten tgt = false.
   Proof. exact (redirect_rule_allow mredir). Qed.
 
   (* tools whose file-writing options Dippy models: approval through a handler implies every
@@ -54,7 +56,7 @@ Section Oracles.
     skip_assignments words = t :: tk -> reaches_handler mcmd handler c (t :: tk) r ->
     snd c = false -> is_help (t :: tk) = false ->
     ladder mcmd handler mredir astr c words = Allow ->
-    forall x, In x (h_targets r) -> In x SAFE_REDIRECT_TARGETS \/ mredir (fst c) x = Some Allow.
+    forall x, In x (h_targets r) -> In x SAFE_REDIRECT_TARGETS \/ (mredir (fst c) x = Some Allow /\ has_rewritten x = false).
   Proof. exact (handler_targets_granted mcmd handler mredir astr). Qed.
 End Oracles.
 Print Assumptions C02_redirects.
@@ -68,6 +70,22 @@ Example C02_example :
   redirect_check $">&" $"f" $"f" = Some $"f" /\ redirect_check $">&" $"2" $"2" = None /\
   redirect_check $"1>" $"&nogrant" $"&nogrant" = Some $"nogrant" /\ redirect_check $"1>" $"&2-" $"&2-" = None.
 Proof. vm_compute. repeat split; reflexivity. Qed.
+
+(* a word that is not a literal name is never granted and never followed as a cd target: the six characters are
+   the ones of _REWRITTEN_CHARS ($ ` * ? [ {) *)
+Example C02_rewritten_example :
+  has_rewritten $"sub/$x/../f" = true /\ has_rewritten $"sub/`echo ..`/../f" = true /\ has_rewritten $"l*" = true /\
+  has_rewritten $"out/{a,../../b}" = true /\ has_rewritten $"out/g" = false /\ has_rewritten $"~/q" = false /\
+  written_rule (Some Allow) $"sub/$x" = None /\ written_rule (Some Deny) $"sub/$x" = Some Deny /\
+  written_rule (Some Allow) $"out/g" = Some Allow.
+Proof. vm_compute. repeat split; reflexivity. Qed.
+
+(* a followed cd target is a literal name: the word has no expansion part of any kind and none of those characters *)
+Theorem C02_cd_target_literal : forall t tgt, extract_cd_target t = Some tgt ->
+  has_rewritten tgt = false /\
+  exists w0 w1, children "words" t = [w0; w1] /\ children "parts" w1 = [] /\ tgt = word_value w1.
+Proof. exact cd_target_literal. Qed.
+Print Assumptions C02_cd_target_literal.
 
 (* "earlier cd commands": the directory each element of a list  a op b op c ...  is analysed in, against the
    operational semantics of and-or lists (Model/CdSpec.v: && / || left-associative, ";" ends the and-or list, "&"
